@@ -173,8 +173,13 @@ def gm_patches(rng=None, mvn=None, extra_np=None):
 
 
 # ---------------------------------------------------------------- fit-level stubs
+# The stubs are real subclasses of Univariate (so that isinstance checks in the code under analysis
+# see them as marginals); listing ABC among their bases keeps them out of Univariate's own
+# candidate selection.
+from abc import ABC as _ABC                                  # noqa: E402
+from copulas.univariate.base import Univariate as _Univariate  # noqa: E402
 
-class StubDist:
+class StubDist(_Univariate, _ABC):
     """configurable marginal for GaussianMultivariate(distribution=...): fit() records the training
     column and identifies it by name; cdf/ppf are the uninterpreted F_j / Q_j of that column"""
     COLIDX = {}
@@ -205,11 +210,11 @@ class StubDist:
         return {'type': 'checks.gm.' + type(self).__name__, 'j': self._stub.j}
 
 
-class StubDistB(StubDist):
+class StubDistB(StubDist, _ABC):
     pass
 
 
-class StubDefault(StubDist):
+class StubDefault(StubDist, _ABC):
     pass
 
 
